@@ -416,8 +416,10 @@ def vssRecv2Go (st : VssSt) : List Nat → Inbox → List Nat → Inbox × List 
 
 /-- receiver, second step: the other receivers' complaints -/
 def vssRecv2 (st : VssSt) (I : Inbox) : VssSt × Inbox × List Op × Status :=
-  let (I1, cf) := vssRecv2Go st (List.range st.n) I []
-  let cc := st.cc + cf.length
+  let (I1, cf0) := vssRecv2Go st (List.range st.n) I []
+  let cc := st.cc + cf0.length
+  -- `if (complaints_counter > 0) complaints_from.push_back(i)`: the dealer answers the own complaint too
+  let cf := if st.cc > 0 then sortUniq st.n (st.i :: cf0) else cf0
   if cc > st.t then ({ st with cc := cc, cfrom := cf, shareRet := some false }, I1, [], .ret false)
   else if cc = 0 then ({ st with cc := cc, cfrom := cf, shareRet := some true }, I1, [], .ret true)
   else ({ st with cc := cc, cfrom := cf }, I1, [], .run)
@@ -426,7 +428,7 @@ def vssRecv2 (st : VssSt) (I : Inbox) : VssSt × Inbox × List Op × Status :=
 def rhsNoCheck (p : Int) (x : Nat) (A : List Int) : Except Err Int := commitProd p x A
 
 /-- receiver, third step: the dealer's public answers, in the order of the sorted complainers
-    (the receiver's own complaint is not in its list) -/
+    (the receiver's own complaint included) -/
 def vssRecv3Go (G : Grp) (st : VssSt) : List Nat → Inbox → VssSt → Except Err (Bool × Inbox × VssSt)
   | [], I, s => .ok (false, I, s)
   | it :: rest, I, s =>
@@ -512,6 +514,8 @@ structure GenSt where
   gs : List Int := []         -- g__s_ij[j][i]
   cnt : List Nat := []
   cfrom : List Nat := []
+  /-- `complainers[j]`: who complained against `j` in step 1(b) (the own complaints included) -/
+  complainers : List (List Nat) := []
   compl : List Nat := []
   qual : List Nat := []
   x : Int := 0
@@ -636,7 +640,8 @@ def genVerify (G : Grp) (st : GenSt) (I : Inbox) : Except Err (GenSt × Inbox ×
   let compl := sortUniq st.n cm3
   let cnt := (List.range st.n).map (fun j => if compl.contains j then 1 else 0)
   let ops : List Op := compl.map (fun (j : Nat) => Op.bc none (j : Int)) ++ [Op.bc none (st.n : Int)]
-  pure ({ st with C := C, s := s, sp := sp, gs := gs, cnt := cnt, compl := [] }, I2, ops, .run)
+  let cps := (List.range st.n).map (fun j => if compl.contains j then [st.i] else [])
+  pure ({ st with C := C, s := s, sp := sp, gs := gs, cnt := cnt, complainers := cps, compl := [] }, I2, ops, .run)
 
 /-- one sender's complaint list in step 1(b): `(counters, complaints_from, complaints)` -/
 def genReadComplaints (st : GenSt) (j : Nat) : Nat → Nat → List Nat → Inbox → List Nat → List Nat → List Nat →
@@ -655,6 +660,18 @@ def genReadComplaints (st : GenSt) (j : Nat) : Nat → Nat → List Nat → Inbo
       if who < st.n ∧ it + 1 ≤ st.n then genReadComplaints st j f (it + 1) dup' I1 cnt' cf' cm'
       else (I1, cnt', cf', cm')
 
+/-- the complaints sender `j` broadcast in step 1(b) as `genReadComplaints` counts them (each accused
+    party once), in the order read -/
+def complaintsOf (n : Nat) (j : Nat) : Nat → Nat → List Nat → Inbox → List Nat
+  | 0, _, dup, _ => dup
+  | f + 1, it, dup, I =>
+    match I.popB none j with
+    | (none, _) => dup
+    | (some v, I1) =>
+      let who := getUi v
+      let dup' := if who < n ∧ ¬ dup.contains who then dup ++ [who] else dup
+      if who < n ∧ it + 1 ≤ n then complaintsOf n j f (it + 1) dup' I1 else dup'
+
 def genCollectGo (st : GenSt) : List Nat → Inbox → List Nat → List Nat → List Nat →
     Inbox × List Nat × List Nat × List Nat
   | [], I, cnt, cf, cm => (I, cnt, cf, cm)
@@ -664,6 +681,16 @@ def genCollectGo (st : GenSt) : List Nat → Inbox → List Nat → List Nat →
       let (I1, cnt1, cf1, cm1) := genReadComplaints st j (st.n + 1) 0 [] I cnt cf cm
       genCollectGo st rest I1 cnt1 cf1 cm1
 
+/-- `complainers` after reading every other party's complaint list -/
+def genComplainers (st : GenSt) : List Nat → Inbox → List (List Nat) → List (List Nat)
+  | [], _, cps => cps
+  | j :: rest, I, cps =>
+    if j = st.i then genComplainers st rest I cps
+    else
+      let acc := complaintsOf st.n j (st.n + 1) 0 [] I
+      -- the reads of sender `j` only consume the buffer of `j`: the other buffers are as in `I`
+      genComplainers st rest I (acc.foldl (fun c who => c.set who (c.getD who [] ++ [j])) cps)
+
 /-- step 1(c): collect the complaints, answer those against oneself -/
 def genCollect (st : GenSt) (I : Inbox) : GenSt × Inbox × List Op × Status :=
   let (I1, cnt, cf, cm) := genCollectGo st (List.range st.n) I st.cnt [] []
@@ -671,7 +698,8 @@ def genCollect (st : GenSt) (I : Inbox) : GenSt × Inbox × List Op × Status :=
   let ans : List Op := if getN cnt st.i > 0 then
       cfs.flatMap (fun (it : Nat) => [Op.bc none (it : Int), Op.bc none (getI st.srow it), Op.bc none (getI st.sprow it)])
     else []
-  ({ st with cnt := cnt, cfrom := cfs, compl := cm }, I1, ans ++ [Op.bc none (st.n : Int)], .run)
+  let cps := genComplainers st (List.range st.n) I st.complainers
+  ({ st with cnt := cnt, cfrom := cfs, complainers := cps, compl := cm }, I1, ans ++ [Op.bc none (st.n : Int)], .run)
 
 /-- the answers of dealer `j` in step 1(d) -/
 def genReadAnswers (G : Grp) (st : GenSt) (j : Nat) : Nat → Inbox → List Int → List Int → List Nat →
@@ -700,6 +728,29 @@ def genReadAnswers (G : Grp) (st : GenSt) (j : Nat) : Nat → Inbox → List Int
             else if who = st.i then genReadAnswers G st j f I3 (s.set j foo) (sp.set j bar) cmB
             else genReadAnswers G st j f I3 s sp cmB
 
+/-- the complainers whose complaint dealer `j` answered in step 1(c): the first entries of the
+    triples `genReadAnswers` reads (an entry counts as soon as it is read) -/
+def answeredOf (n : Nat) (j : Nat) : Nat → Inbox → List Nat → List Nat
+  | 0, _, acc => acc
+  | f + 1, I, acc =>
+    match I.popB none j with
+    | (none, _) => acc
+    | (some w, I1) =>
+      let who := getUi w
+      if who ≥ n then acc
+      else
+        match I1.popB none j with
+        | (none, _) => acc ++ [who]
+        | (some _, I2) =>
+          match I2.popB none j with
+          | (none, _) => acc ++ [who]
+          | (some _, I3) => answeredOf n j f I3 (acc ++ [who])
+
+/-- one complaint against `j` for every complainer it left without an answer -/
+def unanswered (st : GenSt) (j : Nat) (I : Inbox) : List Nat :=
+  let answered := answeredOf st.n j (st.n + 1) I []
+  ((st.complainers.getD j []).filter (fun c => !answered.contains c)).map (fun _ => j)
+
 def genResolveGo (G : Grp) (st : GenSt) : List Nat → Inbox → List Int → List Int → List Nat →
     Except Err (Inbox × List Int × List Int × List Nat)
   | [], I, s, sp, cm => .ok (I, s, sp, cm)
@@ -708,7 +759,7 @@ def genResolveGo (G : Grp) (st : GenSt) : List Nat → Inbox → List Int → Li
     else if j = st.i then genResolveGo G st rest I s sp cm
     else do
       let (I1, s1, sp1, cm1) ← genReadAnswers G st j (st.n + 1) I s sp cm
-      genResolveGo G st rest I1 s1 sp1 cm1
+      genResolveGo G st rest I1 s1 sp1 (cm1 ++ unanswered st j I)
 
 def sumMod (q : Int) (l : List Int) (idx : List Nat) : Int :=
   idx.foldl (fun acc j => (acc + getI l j) % q) 0
@@ -744,10 +795,12 @@ def genExtractCheck (G : Grp) (st : GenSt) (I : Inbox) : Except Err (GenSt × In
   let (I1, A, cm) ← genReadA G st (List.range st.n) I st.A []
   let compl := sortUniq st.n cm
   let ops : List Op := compl.flatMap
-    (fun (it : Nat) => [Op.bc none (it : Int), Op.bc none (getI st.srow it), Op.bc none (getI st.sprow it)])
+    (fun (it : Nat) => [Op.bc none (it : Int), Op.bc none (getI st.s it), Op.bc none (getI st.sp it)])
   pure ({ st with A := A, compl := [] }, I1, ops ++ [Op.bc none (st.n : Int)], .run)
 
-/-- the extraction complaints of sender `j` (step 4(c)); note the reuse of `foo` -/
+/-- the extraction complaints of sender `j` (step 4(c)): `(who, s, s')` is the share `j` received from
+    dealer `who`; it must satisfy (4) for `who`'s commitments at `j`'s index (otherwise the complaint is
+    void and `j` is flagged), and then (5) decides between `who` and `j` -/
 def genReadExtract (G : Grp) (st : GenSt) (j : Nat) : Nat → Inbox → List Nat → Except Err (Inbox × List Nat)
   | 0, I, cm => .ok (I, cm)
   | f + 1, I, cm =>
@@ -767,16 +820,16 @@ def genReadExtract (G : Grp) (st : GenSt) (j : Nat) : Nat → Inbox → List Nat
           | (some bar0, I3) => do
             let (c2, bar) := if absGe bar0 G.q then (true, (0 : Int)) else (false, bar0)
             let cmB := if c2 then cmA ++ [j] else cmA
-            let lhs ← pedF G foo bar
-            let rhs ← commitProd G.p (who + 1) (getRow st.C j)
-            let cmC := if lhs != rhs then cmB ++ [j] else cmB
-            -- `foo` now holds (who+1)^t, the last power computed by the loop above
-            let foo2 : Int := ((who : Int) + 1) ^ st.t
-            let lhs2 ← fpowm G.tabG G.g foo2 G.p
-            let rhs2 ← commitProd G.p (st.i + 1) (getRow st.A j)
-            let cmD := if lhs2 != rhs2 then (if st.qual.contains who then cmC ++ [who] else cmC)
-                       else cmC ++ [j]
-            genReadExtract G st j f I3 cmD
+            let gfoo ← fpowm G.tabG G.g foo G.p
+            let hbar ← fpowm G.tabH G.h bar G.p
+            let lhs := gfoo * hbar % G.p
+            let rhs ← commitProd G.p (j + 1) (getRow st.C who)
+            if lhs != rhs then genReadExtract G st j f I3 (cmB ++ [j])
+            else
+              let rhs2 ← commitProd G.p (j + 1) (getRow st.A who)
+              let cmD := if gfoo != rhs2 then (if st.qual.contains who then cmB ++ [who] else cmB)
+                         else cmB ++ [j]
+              genReadExtract G st j f I3 cmD
 
 def genExtractGo (G : Grp) (st : GenSt) : List Nat → Inbox → List Nat → Except Err (Inbox × List Nat)
   | [], I, cm => .ok (I, cm)
@@ -1006,11 +1059,9 @@ def runGen (G : Grp) (n t : Nat) (ins : List PartyIn) : List (Party GenSt) :=
   failed: `k_dkg->Reconstruct(complaints)`, then `dkg->Reconstruct(complaints)`, then
   `dkg->Reconstruct(QUAL \ QUAL')`.
 
-  The first two of these calls open a broadcast instance with THE SAME identifier (the identifier of
-  `Reconstruct` does not contain the label of the object) and restart the sequence numbers, so in the
-  second call the reliable broadcast discards, as repetitions, whatever a party that already
-  broadcast in the first call sends: such a party's values never arrive.  The model expresses this
-  with a tag nobody reads (`tagDead`). -/
+  The identifier of the broadcast instance a `Reconstruct` call opens contains the label of its
+  object (`dkg` / `k_dkg`) and the complaint list, so the three calls use three instances
+  (`tagA`, `tagB`, `tagC`). -/
 
 def tagA (n : Nat) (l : List Nat) : Tag := some ((n + 1) :: l)
 def tagB (n : Nat) (l : List Nat) : Tag := some ((n + 2) :: l)
@@ -1070,7 +1121,7 @@ def signAdvance (G : Grp) : Nat → SignSt → SignSt × List Op × Status
       else
         let sends := !racc.contains st.i && act.qual.contains st.i
         let tagS : Tag := if st.ph = 0 then tagA st.n racc
-          else if st.ph = 1 then (if st.sentA then tagDead st.n racc else tagB st.n racc)
+          else if st.ph = 1 then tagB st.n racc
           else tagC st.n racc
         let ops : List Op := if sends then [Op.bc tagS (getI act.s it), Op.bc tagS (getI act.sp it)] else []
         ((if st.ph = 0 && sends then { st with sentA := true } else st), ops, .run)
